@@ -22,7 +22,7 @@ SEEDED = os.path.join(VERIF, "seeded")
 # extra properties whose checks are expected to notice a break of the given one
 ALSO = {
     "C01": ["C02", "C03", "C16"], "C02": ["C01", "C16", "C18"], "C03": ["C01", "C16"], "C16": ["C02", "C03"], "C18": ["C02", "C04"],
-    "C05": ["C06", "C02", "C16"], "C06": ["C05", "C14"], "C12": ["C13"], "C13": ["C12"], "C10": ["C11"], "C11": ["C10"], "C07": ["C08"], "C08": ["C07"],
+    "C05": ["C06", "C02", "C16"], "C06": ["C05", "C14", "C02", "C16"], "C12": ["C13"], "C13": ["C12"], "C10": ["C11"], "C11": ["C10"], "C07": ["C08"], "C08": ["C07"],
 }
 
 
